@@ -110,6 +110,15 @@ def plan(rng):
         steps.append(("segment", {"method": METHODS[int(rng.integers(0, 5))], "skip_low": bool(rng.integers(0, 2)), "skip_outliers": int(rng.choice([0, 10]))}))
     while len(steps) < n:
         s = STEPS[int(rng.integers(0, len(STEPS)))]
+        steps.append((s, _params(rng, s)))
+    return steps
+
+
+UNIQUE_STEPS = list(dict.fromkeys(STEPS))
+
+
+def _params(rng, s):
+    if True:
         p = {}
         if s == "segment":
             p = {"method": METHODS[int(rng.integers(0, 5))], "skip_low": bool(rng.integers(0, 2)), "skip_outliers": int(rng.choice([0, 10]))}
@@ -128,8 +137,7 @@ def plan(rng):
             p = {"alpha": float(rng.choice([0.005, 0.5])), "target_only": bool(rng.integers(0, 2))}
         elif s == "export-bed":
             p = {"show": ["all", "variant", "ploidy"][int(rng.integers(0, 3))]}
-        steps.append((s, p))
-    return steps
+        return p
 
 
 def perturb_rng(k):
@@ -248,6 +256,9 @@ def _n(tier):
 def case_sequence(run, i):
     rng = run.rng("seq", i)
     steps = plan(rng)
+    # every operation in turn closes a sequence, so that each one's counters do not hang on the draw
+    forced = UNIQUE_STEPS[i % len(UNIQUE_STEPS)]
+    steps = steps[:3] + [(forced, _params(rng, forced))]
     run.begin_case("sequence", i, cls="seq:" + "+".join(s for s, _ in steps)[:60], steps=[[s, p] for s, p in steps])
     for variant in range(4):
         run_sequence(run, ("world", i), steps, variant)
@@ -264,6 +275,8 @@ def case_everywhere(run, i):
     """Executed in every shard (different processes, four hash seeds)."""
     rng = run.rng("seq-every", i)
     steps = plan(rng)
+    forced = UNIQUE_STEPS[(5 * i + 3) % len(UNIQUE_STEPS)]
+    steps = steps[:3] + [(forced, _params(rng, forced))]
     run.begin_case("everywhere", i, cls="every-shard", steps=[[s, p] for s, p in steps])
     run._tls.pure_xp = {"case": i, "n": 0}
     run_sequence(run, ("world-every", i), steps, 0)
